@@ -20,7 +20,7 @@ Qed.
 
 (* the RouteNotFound route registered exactly at the pattern position [pre] *)
 Definition nf_at (rs : list rt) (pre : list tok) : option rt :=
-  List.find (fun r => str_eqb (rt_m r) NF && toks_eqb (rt_toks r) pre) rs.
+  List.find (fun r => str_eqb (rt_m r) NF && toks_eqb (rt_toks r) pre) (rev rs).   (* the last registration wins *)
 
 Inductive outcome :=
 | Served (r : route) (vals : list str)
@@ -54,7 +54,7 @@ Proof.
     destruct (search _ NF [] [entry_of rnf] p [] None) as [r0 v0|b] eqn:Es; [|discriminate].
     inversion H; subst. eapply spec_sound; [| |exact Es].
     + unfold live_ok. constructor; [reflexivity|constructor].
-    + apply find_some in En as [Hin _]. destruct HWf as [HW _].
+    + apply find_some in En as [Hin _]. apply in_rev in Hin. destruct HWf as [HW _].
       pose proof (table_any_last rs HW) as Hal. unfold any_last in *. rewrite Forall_forall in Hal.
       constructor; [|constructor]. apply Hal. apply in_table. exact Hin.
   - discriminate.
